@@ -1,7 +1,7 @@
 (* PropC12.v — C12: a batch append is all-or-nothing (one call = one entry; the codec validates the whole batch; replay applies all records of an entry or fails; a torn or damaged entry is delivered whole or not at all by the record reader).
    Statements only; each theorem is closed by `exact <lemma>`; proofs live in the imported files. *)
 From Coq Require Import Lia NArith List.
-From MRL Require Import Bytes Params Names Frame Record Mem Rolling Log Driver SpecRefine RecordProofs StreamProofs TornProofs DamageProofs OpenReplay TornFile DamageFile CrashCorollaries PersistSurvive CrashAtomic DamageAtomic RestartInv RestartFinal.
+From MRL Require Import Bytes Params Names Frame Record Mem Rolling Log Driver SpecRefine RecordProofs StreamProofs TornProofs DamageProofs OpenReplay TornFile DamageFile CrashCorollaries PersistSurvive CrashAtomic DamageAtomic RestartInv RestartFinal PowerLoss PowerCorollaries.
 
 (* whatever decodes as an AppendRecords entry is exactly the serialization of the batch it decodes to: no partial batch *)
 Theorem C12_batch_decodes_whole :
@@ -412,4 +412,87 @@ Theorem C12_batch_damage_other :
     (exists m : mq, qs_get (s_qs st_r) q = Some m /\ In (snd r) (records_of (q_buf m) (q_metas m)))).
 Proof. exact batch_damage_other. Qed.
 Print Assumptions C12_batch_damage_other.
+
+(* END TO END, power loss, any policy: after recovery from any power-loss image the batch is recovered as none, all, or all above the highest later truncation *)
+Theorem C12_batch_power :
+    forall P : params,
+    7 < BS P ->
+    BS P <= 65542 ->
+    1 <= NB P ->
+    (forall (t : byte) (p : bytes), crcf P t p < 2 ^ 32) ->
+    L_GC P = false ->
+    L_IO P = false ->
+    L_SHORT P = false ->
+    no_zero_collision P ->
+    forall (st0 : state) (G0 : ghost),
+    Inv P st0 G0 ->
+    w_pending (s_wr st0) = [] ->
+    forall h : list (op * bool),
+    GhostLog.hist_wf P st0 h ->
+    RestartWrite.stream_bound P G0 (map snd (GhostLog.run_log P st0 h)) ->
+    forall evs : list event,
+    c_ev (w_ctx (s_wr (fst (Hist.run P st0 h)))) = rev evs ++ c_ev (w_ctx (s_wr st0)) ->
+    CB P st0 h ->
+    forall (h1 : list (op * bool)) (q : bytes) (pos : option N) (pl : list bytes)
+    (t : bool) (h2 : list (op * bool)) (last nb : N),
+    h = h1 ++ (OAppend q pos pl, t) :: h2 ->
+    let st1 := fst (Hist.run P st0 h1) in
+    snd (step P st1 (OAppend q pos pl) t) = OutAppend (Some last) nb ->
+    let st2 := fst (step P st1 (OAppend q pos pl) t) in
+    forall (cut : N) (pol : policy) (hint : list bytes),
+    exists (m : nat) (st_r : state),
+    (m <= length h)%nat /\
+    open P (fold_left apply_event (power_events evs cut) (c_fs (w_ctx (s_wr st0)))) None pol hint =
+    OpenOk st_r /\
+    (forall q' : bytes,
+    Spec.s_get (abs_qs (s_qs st_r)) q' =
+    Spec.s_get (abs_qs (s_qs (fst (Hist.run P st0 (firstn m h))))) q') /\
+    batch_at P st0 h1 q pl h2 st2 last m (Spec.s_get (abs_qs (s_qs st_r)) q).
+Proof. exact batch_power. Qed.
+Print Assumptions C12_batch_power.
+
+(* if the batch append had been flushed and synced before the power failed, the batch is there (up to later truncation) *)
+Theorem C12_batch_power_persisted :
+    forall P : params,
+    7 < BS P ->
+    BS P <= 65542 ->
+    1 <= NB P ->
+    (forall (t : byte) (p : bytes), crcf P t p < 2 ^ 32) ->
+    L_GC P = false ->
+    L_IO P = false ->
+    L_SHORT P = false ->
+    no_zero_collision P ->
+    forall (st0 : state) (G0 : ghost),
+    Inv P st0 G0 ->
+    w_pending (s_wr st0) = [] ->
+    forall h : list (op * bool),
+    GhostLog.hist_wf P st0 h ->
+    RestartWrite.stream_bound P G0 (map snd (GhostLog.run_log P st0 h)) ->
+    forall evs : list event,
+    c_ev (w_ctx (s_wr (fst (Hist.run P st0 h)))) = rev evs ++ c_ev (w_ctx (s_wr st0)) ->
+    CB P st0 h ->
+    forall (h1 : list (op * bool)) (q : bytes) (pos : option N) (pl : list bytes)
+    (t : bool) (h2 : list (op * bool)) (last nb : N) (evs_i : list event),
+    h = h1 ++ (OAppend q pos pl, t) :: h2 ->
+    let st1 := fst (Hist.run P st0 h1) in
+    snd (step P st1 (OAppend q pos pl) t) = OutAppend (Some last) nb ->
+    let st2 := fst (step P st1 (OAppend q pos pl) t) in
+    let b := last + 1 - lenN pl in
+    w_pending (s_wr st2) = [] ->
+    PersistProofs.wr_all_synced (s_wr st2) ->
+    c_ev (w_ctx (s_wr st2)) = rev evs_i ++ c_ev (w_ctx (s_wr st0)) ->
+    forall (cut : N) (pol : policy) (hint : list bytes),
+    lenN evs_i <= cut ->
+    exists (m : nat) (st_r : state),
+    (length h1 < m)%nat /\
+    (m <= length h)%nat /\
+    open P (fold_left apply_event (power_events evs cut) (c_fs (w_ctx (s_wr st0)))) None pol hint =
+    OpenOk st_r /\
+    (let k2 := (m - S (length h1))%nat in
+    QueueIso.log_never_deleted q (firstn k2 h2) (snd (Hist.run P st2 (firstn k2 h2))) ->
+    exists (recs : list (N * bytes)) (next : N) (j : nat),
+    Spec.s_get (abs_qs (s_qs st_r)) q = Some (recs, next) /\
+    last < next /\ filter (in_span b (last + 1)) recs = skipn j (Spec.s_number b pl)).
+Proof. exact batch_power_persisted. Qed.
+Print Assumptions C12_batch_power_persisted.
 
